@@ -158,6 +158,32 @@ Proof.
   symmetry. apply H; vm_compute; auto.
 Qed.
 
+(* The repaired statement (fixes/C19-output-name-not-a-binding.diff): EVERY successful output
+   declaration — `output x`, `output x = e`, and `output <built-in>`, i.e. every shape the grammar
+   allows — records its name with the value the statement evaluated to; and on declarations of
+   bindings the repaired statement is exactly Program.exec_stmt, so nothing else changes. *)
+Theorem C19_fixed33_declaration_recorded : forall eval s e x,
+  is_rok (snd (exec_stmt_fixed33 eval s (SOut e))) = true -> decl_name_fixed33 e = Some x ->
+  exists v, fst (eval (s_cfg s) e) = Ok v /\
+    s_outputs (fst (exec_stmt_fixed33 eval s (SOut e))) = rec_insert (s_outputs s) x v /\
+    map fst (s_outputs (fst (exec_stmt_fixed33 eval s (SOut e)))) = add_key (map fst (s_outputs s)) x.
+Proof. exact exec_stmt_fixed33_records. Qed.
+Check C19_fixed33_declaration_recorded : forall eval s e x,
+  is_rok (snd (exec_stmt_fixed33 eval s (SOut e))) = true -> decl_name_fixed33 e = Some x ->
+  exists v, fst (eval (s_cfg s) e) = Ok v /\
+    s_outputs (fst (exec_stmt_fixed33 eval s (SOut e))) = rec_insert (s_outputs s) x v /\
+    map fst (s_outputs (fst (exec_stmt_fixed33 eval s (SOut e)))) = add_key (map fst (s_outputs s)) x.
+Print Assumptions C19_fixed33_declaration_recorded.
+
+Theorem C19_fixed33_agrees_on_bindings : forall release bi bu d s t,
+  binding_decl t = true -> is_rok (snd (exec_stmt (evalD release bi bu d) s t)) = true ->
+  exec_stmt_fixed33 (evalD release bi bu d) s t = exec_stmt (evalD release bi bu d) s t.
+Proof. exact evalD_fixed33_agrees. Qed.
+Check C19_fixed33_agrees_on_bindings : forall release bi bu d s t,
+  binding_decl t = true -> is_rok (snd (exec_stmt (evalD release bi bu d) s t)) = true ->
+  exec_stmt_fixed33 (evalD release bi bu d) s t = exec_stmt (evalD release bi bu d) s t.
+Print Assumptions C19_fixed33_agrees_on_bindings.
+
 (* the hypotheses are satisfiable: a script with a re-declaration *)
 Definition n (z : Z) : expr := ENum (num_of_Z z).
 Definition ex_prog : list stmt :=
@@ -207,7 +233,7 @@ Theorem C19_value_k_numbering : forall stdin flags maps,
   contributions [] 0 (sources stdin flags) = Some maps ->
   unnamed_names (sources stdin flags) maps =
   map value_key (seq 1 (length (unnamed_names (sources stdin flags) maps))).
-Proof. intros stdin flags maps. exact (value_k_numbering _ [] 0 maps). Qed.
+Proof. exact value_k_numbering_top. Qed.
 Check C19_value_k_numbering : forall stdin flags maps,
   contributions [] 0 (sources stdin flags) = Some maps ->
   unnamed_names (sources stdin flags) maps =
@@ -259,7 +285,7 @@ Proof. vm_compute. reflexivity. Qed.
    of operators, built-ins and calls.  Same value, same error, same resulting configuration. *)
 Theorem C19_hash_is_inputs_field : forall release bi bu d c n,
   evalD release bi bu d c (EInRef n) = evalD release bi bu d c (EDot (EId "inputs") n).
-Proof. intros. apply hash_is_inputs_field. Qed.
+Proof. exact evalD_hash_is_inputs_field. Qed.
 Check C19_hash_is_inputs_field : forall release bi bu d c n,
   evalD release bi bu d c (EInRef n) = evalD release bi bu d c (EDot (EId "inputs") n).
 Print Assumptions C19_hash_is_inputs_field.
@@ -268,7 +294,7 @@ Theorem C19_hash_null_when_absent : forall release bi bu d c n r,
   lookup (snd c) "inputs" = Some (VRec r) -> rec_get r n = None ->
   evalD release bi bu d c (EInRef n) = (Ok VNull, c) /\
   evalD release bi bu d c (EDot (EId "inputs") n) = (Ok VNull, c).
-Proof. intros. eapply hash_null_when_absent; eauto. Qed.
+Proof. exact evalD_hash_null_when_absent. Qed.
 Check C19_hash_null_when_absent : forall release bi bu d c n r,
   lookup (snd c) "inputs" = Some (VRec r) -> rec_get r n = None ->
   evalD release bi bu d c (EInRef n) = (Ok VNull, c) /\
